@@ -191,7 +191,7 @@ func Execute(job *Job) (*Record, error) {
 		case "val":
 			arg = renumber(*c.V, ren)
 		case "obj":
-			nd, ok := sg[c.N]
+			nd, ok := sg[ren(c.N)]
 			if !ok || nd.K != "val" {
 				return nil, fmt.Errorf("call %s on an object without value", c)
 			}
@@ -343,8 +343,8 @@ func doCall(copier *pdf.Copier, w *pdf.Writer, r *pdf.Reader, c Call, arg Val, r
 		}
 		res.rootElem = out
 	case "obj":
-		ev.N = c.N
-		x, err := r.Get(pdfRef(c.N), true)
+		ev.N = ren(c.N)
+		x, err := r.Get(pdfRef(ev.N), true)
 		if err != nil {
 			return res, ev, "error", "Get: " + err.Error(), ""
 		}
